@@ -332,7 +332,7 @@ func newWorld(r *core.R) *world {
 	r.Cfg("nodes", nn)
 	r.Cfg("distinct_node_names", distinct)
 
-	np := src.Range(2, 6, "pod_names")
+	np := src.Range(2, map[bool]int{false: 6, true: 8}[r.Tier == "thorough"], "pod_names")
 	for i := 0; i < np; i++ {
 		w.podNames = append(w.podNames, fmt.Sprintf("p%d", i))
 	}
